@@ -17,6 +17,7 @@ var verifFamilies = [][]string{
 	{"/a/{x}/{y}", "/a/{x}", "/b"},
 	{"/{x}/b", "/a/c"},
 	{"/", "/a/", "/a/{x}/c"},
+	{"/b", "/{x}"}, // a literal and a templated sibling at the top: the method may be declared on the templated one only
 }
 
 func verifVars(tmpl string) []string {
@@ -153,7 +154,7 @@ func verifC09(maxLen int) {
 	verifReach("end")
 }
 
-//verif:harness id=C09 tier=quick witness=end bounds="legacy router, no servers: 5 template families (shared prefixes, 0-2 variables, literal/templated siblings, trailing-slash variants), POST on one path, methods GET/POST/PUT x every request path '/'+ up to 4 bytes over {/,a,b,c}"
+//verif:harness id=C09 tier=quick witness=end bounds="legacy router, no servers: 6 template families (shared prefixes, 0-2 variables, literal/templated siblings, trailing-slash variants), POST on one path, methods GET/POST/PUT x every request path '/'+ up to 4 bytes over {/,a,b,c}"
 func verifH_C09_legacy() { verifC09(5) }
 
 //verif:harness id=C09 tier=thorough witness=end bounds="as quick with request paths of up to 7 bytes"
@@ -189,7 +190,8 @@ func verifC09Servers(maxLen int) {
 	}
 	path := string(bs)
 	method := []string{"GET", "POST", "PUT"}[verifChoose("method", 3)]
-	reqBase := []string{"", "/v1", "/v2"}[verifChoose("reqBase", 3)]
+	// /v1a: the server's base followed by more of the same segment is not a URL of that server
+	reqBase := []string{"", "/v1", "/v2", "/v1a"}[verifChoose("reqBase", 4)]
 	if sv == 4 {
 		reqBase = "/v1/a" // also a URL of the first server with the path "/a"+path
 	}
@@ -293,7 +295,7 @@ func verifC09Servers(maxLen int) {
 	verifReach("end")
 }
 
-//verif:harness id=C09 tier=quick witness=end bounds="legacy router under servers in {/v1, https://h.example/v1, https://h.example/{b}, two servers /v1 and /v1/a of which one is a prefix of the other} x request base in {none,/v1,/v2} x origin in {https://h.example, other host, http} x 5 template families x GET/POST/PUT x every path '/'+ up to 3 symbolic bytes over {/,a,b,c} after the base"
+//verif:harness id=C09 tier=quick witness=end bounds="legacy router under servers in {/v1, https://h.example/v1, https://h.example/{b}, two servers /v1 and /v1/a of which one is a prefix of the other} x request base in {none,/v1,/v2,/v1a} x origin in {https://h.example, other host, http} x 6 template families x GET/POST/PUT x every path '/'+ up to 3 symbolic bytes over {/,a,b,c} after the base"
 func verifH_C09_legacy_servers() { verifC09Servers(4) }
 
 //verif:harness id=C09 tier=thorough witness=end bounds="as quick with paths of up to 5 bytes"
